@@ -73,10 +73,7 @@ theorem options_claim : ∀ (os : Forest) (kk dep : Nat) (e : List (List UInt8))
       | none => trivial
       | some x => simpa [OptValOk] using this.2
     have hdk := hd kk
-    have hdk' := hdk
-    unfold LineDecor.ok at hdk'
-    simp only [Bool.and_eq_true] at hdk'
-    obtain ⟨⟨⟨⟨_, _⟩, hpre⟩, hpost⟩, htr⟩ := hdk'
+    obtain ⟨hpre, hpost, htr, hht⟩ := LineDecor.ok_parts _ hdk
     have hjunk := visSkip_lead J (d kk) hr.junk hdk
     have hsrc : src.rest = (J ++ (d kk).before ++ (d kk).indent) ++ n ++ (d kk).pre ++
         61 :: ((d kk).post ++ valueText v ++ (d kk).trail ++ 10 :: (renderOptions d (kk + 1) ts ++ rest)) := by
@@ -201,14 +198,11 @@ theorem sections_tail : ∀ (ts : Forest) (kk : Nat) (m : List UInt8) (b : Build
         simp only [nameOk, Bool.and_eq_true, decide_eq_true_eq] at this
         exact this.2
       have hdk := hd kk
-      have hdk' := hdk
-      unfold LineDecor.ok at hdk'
-      simp only [Bool.and_eq_true] at hdk'
-      obtain ⟨⟨⟨⟨_, _⟩, _⟩, _⟩, htr⟩ := hdk'
+      obtain ⟨_, _, htr, hht⟩ := LineDecor.ok_parts _ hdk
       have hjunk := visSkip_lead J (d kk) hr.junk hdk
       -- the opening character ends the open section
       have hsrc : src.rest = (J ++ (d kk).before ++ (d kk).indent) ++ open_ ++
-          (n ++ close ++ (d kk).trail ++ 10 :: (renderOptions d (kk + 1) cs ++
+          (n ++ close ++ headTrail (d kk) ++ 10 :: (renderOptions d (kk + 1) cs ++
             renderFlat d open_ close (kk + 1 + cs.length) ts)) := by
         rw [hr.src]
         simp [renderFlat, hce, List.append_assoc]
@@ -219,7 +213,7 @@ theorem sections_tail : ∀ (ts : Forest) (kk : Nat) (m : List UInt8) (b : Build
       rw [hc1] at hstep1
       -- the name of the next section
       obtain ⟨s2, src2, J2, heq2, ⟨l2, fi2, v2, ln2, hs2⟩, hJ2, hr2⟩ :=
-        hst.headNext { s1 with path := p1, curr := 0, valid := 0 } src1 n (d kk).trail _ hclean1 rfl hn htr hr1
+        hst.headNext { s1 with path := p1, curr := 0, valid := 0 } src1 n (headTrail (d kk)) _ hclean1 rfl hn hht hr1
       have hna2 := nodeAppend_new false 0 { b with depth := 0 + 1 } Flag.sectEnd s2 1 [] n none
         (by simp [Mode, Flag.sectEnd]) (Or.inl ⟨rfl, rfl⟩) (by rw [hs2]; rfl) hlen
       have hstep2 := loop_step k cfg _ _ Flag.sectEnd _ s2 src1 src2 1 _ heq2 (by decide) hna2
@@ -309,17 +303,14 @@ theorem flat_claim : ∀ (f : Forest) (kk : Nat) (b : Build) (prev : Nat) (s : S
           simp only [nameOk, Bool.and_eq_true, decide_eq_true_eq] at this
           exact this.2
         have hdk := hd kk
-        have hdk' := hdk
-        unfold LineDecor.ok at hdk'
-        simp only [Bool.and_eq_true] at hdk'
-        obtain ⟨⟨⟨⟨_, _⟩, _⟩, _⟩, htr⟩ := hdk'
+        obtain ⟨_, _, htr, hht⟩ := LineDecor.ok_parts _ hdk
         have hjunk := visSkip_lead J (d kk) hr.junk hdk
-        have hsrc : src.rest = (J ++ (d kk).before ++ (d kk).indent) ++ open_ ++ n ++ close ++ (d kk).trail ++
+        have hsrc : src.rest = (J ++ (d kk).before ++ (d kk).indent) ++ open_ ++ n ++ close ++ headTrail (d kk) ++
             10 :: (renderOptions d (kk + 1) cs ++ renderFlat d open_ close (kk + 1 + cs.length) ts) := by
           rw [hr.src]
           simp [renderFlat, hce', List.append_assoc]
         obtain ⟨s1, src1, J1, heq1, ⟨l1, fi1, v1, ln1, hs1⟩, hJ1, hr1⟩ :=
-          hst.headFirst s src prev _ n (d kk).trail _ hr.clean hr.valid hp hjunk hn htr hsrc
+          hst.headFirst s src prev _ n (headTrail (d kk)) _ hr.clean hr.valid hp hjunk hn hht hsrc
         have hna1 := nodeAppend_new first 0 b prev s1 1 [] n none hm (Or.inl ⟨rfl, rfl⟩) (by rw [hs1]; rfl) hlen
         have hstep1 := loop_step k cfg b _ prev s s1 src src1 1 _ heq1 (by decide) hna1
           (by rw [hs1]; exact afterSave_inv _ _ _ _)
